@@ -21,13 +21,19 @@ def declLine (attr value : Str) : Str := ' ' :: attr ++ ": ".toList ++ value ++ 
 def langBlock (extra : Str → Str) (lang : Str) : Str :=
   "\n    .".toList ++ lang ++ " {\n    ".toList ++ declLine "lang".toList lang ++ extra lang ++ "}\n".toList
 
-/-- the loop over `caption_set.get_languages()`; `test` is the text searched for -/
-def declareLangs (test : Str → Str) (extra : Str → Str) (sheet : Str) : List Str → Str
-  | [] => sheet
-  | l :: ls => declareLangs test extra (if contains (test l) sheet then sheet else sheet ++ langBlock extra l) ls
+/-- the selector of a language's own class as it is written: `.<lang> {` -/
+def blockHead (lang : Str) : Str := '.' :: lang ++ " {".toList
 
-/-- `_recreate_stylesheet` for a caption set without styles of its own -/
-def stylesheet (extra : Str → Str) (langs : List Str) : Str :=
-  declareLangs langRule extra "<!--".toList langs ++ "   -->".toList
+/-- the loop over `caption_set.get_languages()`; `test` is the text searched for; `labels l` says that some paragraph of
+    language `l` is labelled with the language code itself (its own class declares no language) -/
+def declareLangs (test : Str → Str) (extra : Str → Str) (labels : Str → Bool) (sheet : Str) : List Str → Str
+  | [] => sheet
+  | l :: ls =>
+    declareLangs test extra labels
+      (if contains (test l) sheet && !(labels l && !contains (blockHead l) sheet) then sheet else sheet ++ langBlock extra l) ls
+
+/-- `_recreate_stylesheet`: `sheet0` is what the caption set's own styles gave -/
+def stylesheet (extra : Str → Str) (labels : Str → Bool) (sheet0 : Str) (langs : List Str) : Str :=
+  declareLangs langRule extra labels sheet0 langs ++ "   -->".toList
 
 end PcVerif.SamiW
